@@ -229,7 +229,9 @@ def gen_defn(rng):
     elif r < 0.2:
         meas = rng.choice(COLS)
     return dict(model=model, dim=dim, meas=meas, cnt=cnt, rat=rat, der=der, seg=seg, sql_backed=rng.random() < 0.25, composite=rng.random() < 0.25,
-                inline=rng.random() < 0.5, meas_col=rng.choice(["c0", "c1", "c0 + c1"]))
+                inline=rng.random() < 0.5, meas_col=rng.choice(["c0", "c1", "c0 + c1"]),
+                sg_cat=rng.choice([None, None, ["day", "month"], ["year"], ["day", "week", "month", "quarter", "year"]]),
+                sg_time=rng.choice([None, None, ["day", "month"], ["week", "quarter", "year"], ["hour", "day"]]))
 
 
 def classify_defn(d):
@@ -266,7 +268,8 @@ def try_defn(d):
     src = dict(sql="SELECT * FROM tbl1 WHERE c1 >= 0") if d["sql_backed"] else dict(table="tbl1")
     try:
         L.add_model(Model(name=d["model"], primary_key=(["id", "id2"] if d["composite"] else "id"),
-                          dimensions=[Dimension(name=d["dim"], type="categorical", sql="s0"), Dimension(name="t_" + d["dim"][:6], type="time", granularity="day", sql="ts")],
+                          dimensions=[Dimension(name=d["dim"], type="categorical", sql="s0", supported_granularities=d.get("sg_cat")),
+                                      Dimension(name="t_" + d["dim"][:6], type="time", granularity="day", sql="ts", supported_granularities=d.get("sg_time"))],
                           metrics=mets, segments=[Segment(name=d["seg"], sql="{model}.s0 = 'a'")], **src))
     except Exception as e:
         return False, {"add_model": "%s: %s" % (type(e).__name__, str(e)[:100])}
@@ -274,7 +277,7 @@ def try_defn(d):
     qs = {"dim": dict(dimensions=["%s.%s" % (m, d["dim"])]), "meas": dict(metrics=["%s.%s" % (m, d["meas"])]), "count": dict(metrics=["%s.%s" % (m, d["cnt"])]),
           "ratio": dict(metrics=["%s.%s" % (m, d["rat"])]), "derived": dict(metrics=["%s.%s" % (m, d["der"])]),
           "segment": dict(metrics=["%s.%s" % (m, d["cnt"])], segments=["%s.%s" % (m, d["seg"])])}
-    for gname in ("hour", "day", "week", "month", "quarter", "year"):
+    for gname in (d.get("sg_time") or ("hour", "day", "week", "month", "quarter", "year")):
         qs["time__" + gname] = dict(dimensions=["%s.t_%s__%s" % (m, d["dim"][:6], gname)])
     if d["inline"]:
         qs["inline"] = dict(metrics=["%s.ex_inline" % m])
@@ -284,6 +287,17 @@ def try_defn(d):
             L.conn.execute(L.compile(**q)).fetchall()
         except Exception as e:
             errs[k] = "%s: %s" % (type(e).__name__, str(e)[:110].replace("\n", " "))
+    # a granularity on the NON-time dimension is rejected by validation, whatever attributes the dimension carries
+    if "__" not in d["dim"]:
+        from sidemantic.validation import QueryValidationError
+        for gname in ("day", "month", "year"):
+            try:
+                L.compile(dimensions=["%s.%s__%s" % (m, d["dim"], gname)])
+                errs["nontime__" + gname] = "NOT REJECTED: SQL was produced for a granularity on a non-time dimension"
+            except QueryValidationError:
+                pass
+            except Exception as e:
+                errs["nontime__" + gname] = "not a validation error: %s: %s" % (type(e).__name__, str(e)[:90].replace("\n", " "))
     return True, errs
 
 
